@@ -11,6 +11,10 @@ CLAIMS = {
  'C17': dict(category='proof',
    text='optional<T>, expected<E,T>, variant<int,T,char>, manual_box<T>, tuple: every constructor, copy/move, all assignment (destination state x source state incl. empty<-empty, different alternative), emplace, destruction and accessor is proved against a contract stating the std:: state machine (engaged flag / tag / error code, held value, accessor returns the address of the held object, source unchanged or moved-from) for T with observable lifetime; loop-free, all inputs (class P).',
    note='Trusted: clang AST + frg2c lowering (layout self-check), CBMC 6.11 DFCC + SAT, element-type stub (value + in-band lifetime flags, operations do not fail). Verified for the listed instantiations, not for all T. apply/tuple_cat/map/map_error and the converting optional assignments are not covered.'),
+
+ 'C12': dict(category='proof',
+   text='Guards: every operation of unique_lock, shared_lock and the QS lock_guard (construct locked/deferred/adopted, lock, unlock, move-construct, assign incl. same-mutex, swap, destroy from every ownership state) proved against counting-mutex contracts: an owning guard accounts for exactly one acquisition, release goes through the matching call exactly once, transfers leave the mutex counters untouched (class P, loop-free). Spinlocks: thread-modular rely/guarantee contracts: lock() returns only after an acquire-ordered observation of its own ticket / of an exchange that read false, unlock() is a release store by the holder handing over to exactly the next ticket; the environment may act arbitrarily within the stated rely at every atomic access (class P under the rely).',
+   note='Trusted: clang AST + frg2c lowering, CBMC DFCC + SAT; mutex stub only counts calls; rely conditions of the spinlock proofs (other threads only take tickets / only the holder advances serving_ticket_; RMW atomicity) and release/acquire message passing are assumed, not checked; no interleavings are explored; eventual acquisition (fairness) not decided.'),
 }
 _ALL = ['C%02d' % i for i in range(1, 21)]
 NOT_APPLICABLE = {p: 'check not built yet in this session (planned, see DESIGN.md section 7); not a statement about the technique' for p in _ALL if p not in CLAIMS}
